@@ -50,6 +50,15 @@ def cases(tier, seed, i, n):
         for what in ('pong', 'close'):
             for t_, sl in ((1.0, 0.9), (1.0, 0.7), (2.0, 1.8), (3.0, 2.95)):
                 yield dict(kind='slowpong', what=what, t=t_, sleep=sl)
+        # a real loopback connection on which the server sends one byte of TCP urgent data and then nothing
+        for pt in (1.0, None):
+            yield dict(kind='real-oob', pt=pt)
+        # connect() is called again on the object while this connection is still being iterated: its close timeout is
+        # about ITS Close (sent / not sent), whatever happens on the newer connection
+        for what in ('own-close-unanswered', 'only-the-other-one-closed'):
+            for c_ in (1.0, 2.5):
+                for age in (0.0, 4.0):
+                    yield dict(kind='overlap', what=what, c=c_, age=age)
         # a clock that reads round decimal values (epoch 0): multiples of the ping rate and poll instants then
         # coincide up to the last bit, which is where "next multiple in the future" computed in floats can be wrong
         for p, r in ((0.1, 0.3), (0.2, 0.3), (0.1, 0.7), (0.25, 0.7), (0.1, 0.01), (0.5, 1.5), (0.1, 0.6), (1.0, 3.0)):
@@ -161,9 +170,152 @@ def run_slowpong(case, acc):
         acc.cls('slow-same-read/%s/%s/%s' % (case['what'], t, sleep))
 
 
+def run_real_oob(case, acc):
+    """Real sockets, real selector.  After the upgrade the server sends ONE byte of urgent (out-of-band) data and goes
+    quiet.  Polls must keep coming (poll 0.2) and, with ping_timeout 1 s, Unresponsive + Disconnected follow.  A loop
+    that is not back after 8 s is judged by where it is: blocked in the session's read -> would-hang (the peer, by
+    construction, sends nothing more); anywhere else -> inconclusive."""
+    import os
+    import socket
+    import sys
+    import threading
+    import time
+    import traceback
+    from .. import env, realnet
+    from ..ref import http as refhttp
+    srv, port = realnet._listen()
+    done = threading.Event()
+
+    def serve():
+        try:
+            conn, _ = srv.accept()
+            req = realnet._read_request(conn)
+            conn.sendall(refhttp.make_response(req, {}))
+            time.sleep(0.5)
+            conn.send(b'!', socket.MSG_OOB)
+            done.wait(20)
+            conn.close()
+        except Exception:   # noqa
+            pass
+        finally:
+            srv.close()
+    th = threading.Thread(target=serve, daemon=True)
+    th.start()
+    S, cap, _sels = realnet.make_cap_session()
+    ws = env.WebSocket('ws://127.0.0.1:%d/' % port, proxies={})
+    seen = []
+
+    def consumer():
+        t0 = time.monotonic()
+        for ev in ws.connect(session_class=S, poll=0.2, ping_rate=0, ping_timeout=case['pt']):
+            seen.append((ev.name, round(time.monotonic() - t0, 2)))
+            if case['pt'] is None and ev.name == 'poll' and time.monotonic() - t0 > 3.0:
+                break
+    ct = threading.Thread(target=consumer, daemon=True)
+    ct.start()
+    ct.join(8)
+    acc.count2('oracle', 'real_urgent_data_runs')
+    if ct.is_alive():
+        fr = sys._current_frames().get(ct.ident)
+        where = [(os.path.basename(f.filename), f.name) for f in traceback.extract_stack(fr)] if fr is not None else []
+        stuck = bool(where) and where[-1] == ('session.py', '_recv')
+        done.set()
+        ct.join(10)
+        th.join(5)
+        if stuck:
+            acc.violation('would-hang:loop-blocked-in-a-read-after-one-byte-of-urgent-data',
+                          'C15 no Poll, no timeout any more: the selector reports the socket readable, recv() has nothing to read',
+                          case, dict(stack=where[-6:], events=seen[-8:]))
+        else:
+            acc.inconclusive.append('real-oob: loop not back after 8 s, not in the read: %r' % (where[-5:],))
+        return
+    done.set()
+    th.join(5)
+    names = [n for n, _t in seen]
+    polls_after = [t for n, t in seen if n == 'poll' and t > 0.8]
+    key = None
+    if case['pt'] is not None and names[-2:] != ['unresponsive', 'disconnected']:
+        key = 'no-unresponsive-after-ping-timeout:urgent-data-on-the-connection'
+    elif case['pt'] is None and len(polls_after) < 3:
+        key = 'polls-stopped:urgent-data-on-the-connection'
+    if key:
+        acc.violation(key, 'C15 %s' % key, case, dict(events=seen[-10:]))
+    else:
+        acc.cls('real-oob/%s' % case['pt'])
+
+
+def run_overlap(case, acc):
+    """Connection A (poll 0.5, close_timeout c, silent server) is `age` seconds past Ready when its handler makes
+    connection B on the same object (own world, driven to Ready).  'own-close-unanswered': A had sent a Close just before
+    - forced Disconnected in [c, c + p] after that Close.  'only-the-other-one-closed': the application closes B - A,
+    which never sent a Close, goes on polling."""
+    from .. import simnet
+    c, age, what = case['c'], case['age'], case['what']
+    wa = H.World(H.hs_server([]), horizon=age + c + 6.0, stop_at=age + c + 6.0, budget=60000)
+    wb = H.World(H.hs_server([]), horizon=30.0, budget=60000)
+    st = {}
+
+    def policy(ws, ev, idx, run_):
+        if ev.name != 'poll' or 'g2' in st:
+            return
+        t0_ = run_.times[run_.names.index('ready')]
+        if wa.now - t0_ < age - EPS:
+            return
+        if what == 'own-close-unanswered':
+            H.app_call(run_, ws, 'close', 1000, 'bye')
+            st['t_close'] = wa.now
+        with simnet.Installed(wb):
+            st['g2'] = g2 = ws.connect(session_class=simnet.SimSession, poll=0.5, ping_rate=0, close_timeout=c)
+            try:
+                for ev2 in g2:
+                    if ev2.name == 'poll':
+                        break
+            except (simnet.Quiesced, simnet.BudgetExceeded):
+                pass
+            if what == 'only-the-other-one-closed':
+                try:
+                    ws.close(1000, 'the newer connection')
+                except Exception:   # noqa
+                    pass
+        st['t_other'] = wa.now
+
+    run = H.drive(wa, connect_kwargs=dict(poll=0.5, ping_rate=0, close_timeout=c), policy=policy, companion=False)
+    acc.count2('oracle', 'close_timeout_runs_overlapped_by_a_second_connect')
+    names = run.names
+    t0 = run.times[names.index('ready')] if 'ready' in names else 0.0
+    detail = dict(events=[(n, round(tt - t0, 3)) for n, tt in zip(names, run.times) if n != 'poll'][-6:], end=run.end, exc=run.exc,
+                  polls=names.count('poll'), t_close=st.get('t_close'), t_other=st.get('t_other'))
+    key = None
+    if 'g2' not in st:
+        acc.inconclusive.append('C15 overlap: the second connect() was never made: %r' % (detail,))
+        return
+    forced = names[-1] == 'disconnected' and run.end == 'stop'
+    if what == 'own-close-unanswered':
+        if not forced:
+            key = 'close-timeout-did-not-fire:connect-was-called-again-meanwhile'
+        else:
+            dt = run.times[-1] - st['t_close']
+            detail['forced_after'] = round(dt, 3)
+            if dt < c - EPS:
+                key = 'forced-disconnect-before-close-timeout:connect-was-called-again-meanwhile'
+            elif dt > c + 0.5 + EPS:
+                key = 'close-timeout-fired-late:connect-was-called-again-meanwhile'
+    else:
+        if forced or run.end != 'quiesced':
+            key = 'forced-disconnect-without-own-close:the-close-was-sent-on-the-newer-connection'
+    if key:
+        acc.violation(key, 'C15 %s: c=%s age=%s' % (key, c, age), case, detail)
+    else:
+        acc.cls('overlap/%s/%s/%s' % (what, c, age))
+
+
 def run_case(case, acc):
     if case.get('kind') == 'slowpong':
         return run_slowpong(case, acc)
+    if case.get('kind') == 'overlap':
+        return run_overlap(case, acc)
+    if case.get('kind') == 'real-oob':
+        return run_real_oob(case, acc)
     p, r, t, c = case['p'], case['r'], case['t'], case['c']
     steps, table, horizon = build(case)
     w = H.World(H.hs_server(steps), horizon=horizon, stop_at=horizon, budget=60000,
